@@ -544,6 +544,8 @@ def _desugar_combinator(views, f, bid, depth, stack, pending):
         cpl = cop.get("move") or cop.get("copy")
         if cpl is None and isinstance(cop.get("const"), dict) and cop["const"].get("fn"):
             fnitem = cop["const"]  # `.map(Algorithm::from_str)`: the mapper is a function item, applied as an ordinary call
+            if fnitem["fn"].split("<")[0].rsplit("::", 1)[-1] in ALIAS_CALLS:
+                return False  # `.map(String::as_str)` / `.and_then(Value::as_str)`: a view adaptor, kept as an alias call of its subject
         elif not cpl or cpl["proj"]:
             return False
         else:
